@@ -32,6 +32,7 @@ type chanSpec struct {
 	chunks     []int // split sizes for custom/tcp
 	startDelay time.Duration
 	disconnect bool
+	early      bool // tcp: the peer half-closes right after its last byte instead of waiting for the events
 	pipe       *sim.Pipe
 	peer       *sim.Peer
 }
@@ -171,6 +172,11 @@ func (c *chanSpec) feed(udpAddr, tcpAddr string) error {
 			}
 			data = data[n:]
 		}
+		if c.early {
+			if tc, ok := p.Conn.(*net.TCPConn); ok {
+				tc.CloseWrite() //nolint:errcheck
+			}
+		}
 	case "udp":
 		p, err := sim.Dial("udp4", udpAddr)
 		if err != nil {
@@ -206,7 +212,7 @@ func (w *c10World) describe() string {
 	var b strings.Builder
 	fmt.Fprintf(&b, "dialect=%v inKey=%v outV1=%v pacing=%+v pause=%dms writers=%d\n", w.dialect, w.key != nil, w.outV1, w.pacing, w.pauseMs, w.writers)
 	for i, c := range w.specs {
-		fmt.Fprintf(&b, " channel %d (%s, tag %d, delay %v, disconnect %v, chunks %v):", i, c.kind, c.tag, c.startDelay, c.disconnect, c.chunks)
+		fmt.Fprintf(&b, " channel %d (%s, tag %d, delay %v, disconnect %v early %v, chunks %v):", i, c.kind, c.tag, c.startDelay, c.disconnect, c.early, c.chunks)
 		for _, s := range c.script {
 			if strings.HasPrefix(s.kind, "valid") {
 				fmt.Fprintf(&b, " %s#%d", s.kind, s.idx)
@@ -252,7 +258,7 @@ func renderEvents(recs []sim.Rec, chanIdx map[*gomavlib.Channel]int) string {
 
 func TestC10EventStream(t *testing.T) {
 	rec := evid.New(t, "C10", "scripted scenarios on a real Node: 1..4 channels (custom in-memory transports, TCP-server and UDP-server peers on loopback) each fed a generated script of valid tagged frames, complete frames with wrong checksum / wrong signature / missing signature and non-marker junk in generated chunkings, a consumer with generated pacing (fast, sleeping, bursty, paused then resumed), concurrent WriteMessageAll callers, late-connecting and disconnecting TCP peers; per channel the event sequence must match Open (Frame|ParseError)* Close?, frames == the valid frames of that channel's script in order with the channel's tag, rejected input only as ParseError, exactly one Close for a disconnected peer and nothing after it; non-trivial = >=2 channels with >=1 rejected segment and a non-fast consumer; distinct by hash of the scripts")
-	rec.Require("multi-channel+rejected+slow-consumer", "custom", "tcp", "udp", "inkey", "inkey+out-v1", "disconnect", "paused-consumer", "concurrent-writers", "stream-requests-enabled")
+	rec.Require("multi-channel+rejected+slow-consumer", "custom", "tcp", "udp", "inkey", "inkey+out-v1", "disconnect", "paused-consumer", "concurrent-writers", "stream-requests-enabled", "link-drops-right-after-last-byte+stream-requests")
 	evid.Check(t, rec, evid.N(400, 1000), func(t *rapid.T) {
 		w := &c10World{}
 		w.dialect = rapid.IntRange(0, 3).Draw(t, "dialect") > 0
@@ -271,6 +277,7 @@ func TestC10EventStream(t *testing.T) {
 			c.chunks = rapid.SliceOfN(rapid.IntRange(1, 40), 0, 30).Draw(t, "chunks")
 			c.startDelay = time.Duration(rapid.IntRange(0, 3000).Draw(t, "delay_us")) * time.Microsecond
 			c.disconnect = c.kind == "tcp" && rapid.Bool().Draw(t, "disconnect")
+			c.early = c.disconnect && rapid.Bool().Draw(t, "early_disconnect")
 			if c.kind == "custom" {
 				c.pipe = sim.NewPipe()
 			}
@@ -311,6 +318,12 @@ func TestC10EventStream(t *testing.T) {
 		}
 		if disc {
 			cls = append(cls, "disconnect")
+		}
+		for _, c := range w.specs {
+			if c.early && w.streamReq {
+				cls = append(cls, "link-drops-right-after-last-byte+stream-requests")
+				break
+			}
 		}
 		if w.pauseMs > 0 {
 			cls = append(cls, "paused-consumer")
